@@ -69,6 +69,9 @@ def host_of(split):
         return ("EXC", type(e).__name__)
 
 
+ALL_KW = [False]
+
+
 def check_url(ctx, m, u, rng, classes):
     if not parseable(u):
         ctx.count("unparseable-not-judged")
@@ -83,6 +86,7 @@ def check_url(ctx, m, u, rng, classes):
         if not inf:
             ctx.count("opt-infer_redirection-off")
         a = call(m.get_normalized_hostname, u, normalize_amp=amp, infer_redirection=inf)
+        ctx.remember("ural.normalize_url:get_normalized_hostname", [u], {"normalize_amp": amp, "infer_redirection": inf}, a if not isinstance(a, tuple) else None)
         b = host_of(call(ural.normalize_url, u, normalize_amp=amp, infer_redirection=inf, unsplit=False))
         ctx.ev()
         ctx.count("pair:get_normalized_hostname")
@@ -92,6 +96,7 @@ def check_url(ctx, m, u, rng, classes):
         if ss:
             ctx.count("opt-strip_suffix")
         a = call(m.get_fingerprinted_hostname, u, strip_suffix=ss)
+        ctx.remember("ural.fingerprint_url:get_fingerprinted_hostname", [u], {"strip_suffix": ss}, a if not isinstance(a, tuple) else None)
         b = host_of(call(ural.fingerprint_url, u, strip_suffix=ss, unsplit=False))
         ctx.ev()
         ctx.count("pair:get_fingerprinted_hostname")
@@ -104,28 +109,28 @@ def check_url(ctx, m, u, rng, classes):
         for name, sfn, ufn, kws in (("canonicalized_lru_stems", m.lru.canonicalized_lru_stems, ural.canonicalize_url, [{}, {"strip_fragment": True}, {"quoted": True}]),
                                     ("normalized_lru_stems", m.lru.normalized_lru_stems, ural.normalize_url, [{}, {"strip_protocol": False}, {"strip_trailing_slash": False, "sort_query": False}]),
                                     ("fingerprinted_lru_stems", m.lru.fingerprinted_lru_stems, ural.fingerprint_url, [{}, {"strip_suffix": True}])):
-            kw = kws[rng.randrange(len(kws))]
-            a = call(sfn, u, suffix_aware=sa, **kw)
-            s = call(ufn, u, **kw)
-            ctx.ev()
-            ctx.count("pair:" + name)
-            if isinstance(s, tuple) or isinstance(a, tuple):
-                if isinstance(a, tuple) != isinstance(s, tuple):
-                    ctx.viol("C07:%s:one-side-raises" % name, {"fn": name, "url": u, "suffix_aware": sa, "kwargs": kw}, {"helper": a, "string": s})
-                continue
-            if s == u and name != "canonicalized_lru_stems" and not isinstance(call(ufn, u, unsplit=False, **kw), tuple) and isinstance(call(ufn, u, unsplit=False, **kw), str):
-                continue  # returned unchanged because unparseable: C05's business
-            b = call(m.lru.lru_stems, s, suffix_aware=sa)
-            if isinstance(b, tuple):
-                ctx.viol("C07:%s:string-result-has-no-stems" % name, {"fn": name, "url": u, "suffix_aware": sa, "kwargs": kw}, {"string": s, "exc": b})
-                continue
-            if not PROTO_RE.match(s) or s.startswith("//"):
-                b = [x for x in b if not x.startswith("s:")]
-                a2 = [x for x in a if not x.startswith("s:")]
-            else:
-                a2 = a
-            if a2 != b:
-                ctx.viol("C07:%s-vs-lru_stems(string):%s" % (name, stem_kind(a2, b)), {"fn": name, "url": u, "suffix_aware": sa, "kwargs": kw}, {"helper": a, "string": s, "stems_of_string": b})
+            for kw in (kws if ALL_KW[0] else [kws[rng.randrange(len(kws))]]):
+                a = call(sfn, u, suffix_aware=sa, **kw)
+                s = call(ufn, u, **kw)
+                ctx.ev()
+                ctx.count("pair:" + name)
+                if isinstance(s, tuple) or isinstance(a, tuple):
+                    if isinstance(a, tuple) != isinstance(s, tuple):
+                        ctx.viol("C07:%s:one-side-raises" % name, {"fn": name, "url": u, "suffix_aware": sa, "kwargs": kw}, {"helper": a, "string": s})
+                    continue
+                if s == u and name != "canonicalized_lru_stems" and not isinstance(call(ufn, u, unsplit=False, **kw), tuple) and isinstance(call(ufn, u, unsplit=False, **kw), str):
+                    continue  # returned unchanged because unparseable: C05's business
+                b = call(m.lru.lru_stems, s, suffix_aware=sa)
+                if isinstance(b, tuple):
+                    ctx.viol("C07:%s:string-result-has-no-stems" % name, {"fn": name, "url": u, "suffix_aware": sa, "kwargs": kw}, {"string": s, "exc": b})
+                    continue
+                if not PROTO_RE.match(s) or s.startswith("//"):
+                    b = [x for x in b if not x.startswith("s:")]
+                    a2 = [x for x in a if not x.startswith("s:")]
+                else:
+                    a2 = a
+                if a2 != b:
+                    ctx.viol("C07:%s-vs-lru_stems(string):%s" % (name, stem_kind(a2, b)), {"fn": name, "url": u, "suffix_aware": sa, "kwargs": kw}, {"helper": a, "string": s, "stems_of_string": b})
     # get_hostname vs the standard parser
     a = call(ural.get_hostname, u)
     try:
@@ -148,6 +153,7 @@ def check_host(ctx, m, h):
         return
     for amp in (True, False):
         a = call(m.normalize_hostname, h, normalize_amp=amp)
+        ctx.remember("ural.normalize_url:normalize_hostname", [h], {"normalize_amp": amp}, a if not isinstance(a, tuple) else None)
         b = host_of(call(m.ural.normalize_url, u, normalize_amp=amp, unsplit=False, infer_redirection=False))
         ctx.ev()
         ctx.count("pair:normalize_hostname")
@@ -155,6 +161,7 @@ def check_host(ctx, m, h):
             ctx.viol("C07:normalize_hostname-vs-normalize_url:%s" % kind(a, b, h), {"fn": "normalize_hostname", "host": h, "normalize_amp": amp}, {"helper": a, "url_level": b})
     for ss in (False, True):
         a = call(m.fingerprint_hostname, h, strip_suffix=ss)
+        ctx.remember("ural.fingerprint_url:fingerprint_hostname", [h], {"strip_suffix": ss}, a if not isinstance(a, tuple) else None)
         b = host_of(call(m.ural.fingerprint_url, u, strip_suffix=ss, unsplit=False))
         ctx.ev()
         ctx.count("pair:fingerprint_hostname")
@@ -229,7 +236,7 @@ DIRECTED_URLS = ["\x00http://example.com", "\x01\x02 http://www.example.com/x", 
                  "localhost:8000/a", "//www.example.com/a", "example.com", "http://de.example.com.au/x", "http://us.shop.example.pvt.k12.ma.us/", "http://www.ck/x", "http://fr.foo.ck/",
                  "http://example.com/a/b/../c?utm_source=1&z=2&a=1#!/route", "http://example.com/%7Efoo?é=%C3%A9#frag", "HTTP://EXAMPLE.COM:80/A", "http://example.com./x", "http://www.m.example.com/", "http://example.com/../x/y", "http://example.com/a/../../b?q=1", "http://münchen.de/x", "http://xn--mnchen-3ya.de/x",
                  "git://www.example.com/repo.git", "ssh://fr.example.com/x", "ftp://m.example.co.uk/a/", "wss://www.example.com:443/s", "custom://amp.example.com/x", "rtmp://WWW.Example.COM/live",
-                 "http://a.com/?url=HTTP://B.com", "http://a.com/?URL=HTTPS%3A%2F%2FWWW.B.ORG%2FX", "HTTP://A.COM/?NEXT=/HOME", "a.fr/login?next=/home"]
+                 "http://www.x.co.uk.fr/a", "http://fr.shop.com.au.com/x?b=1", "http://a.com/?url=HTTP://B.com", "http://a.com/?URL=HTTPS%3A%2F%2FWWW.B.ORG%2FX", "HTTP://A.COM/?NEXT=/HOME", "a.fr/login?next=/home"]
 DIRECTED_HOSTS = ["fr.facebook.com", "fr-FR.facebook.com", "www.lemonde.fr", "m.example.co.uk", "amp-x.example.com", "amp.example.com", "xn--tlrama-bvab.fr", "TÉLÉRAMA.fr", " Example.COM ",
                   "fr.example.com.au", "de.co.uk", "co.uk", "com", "us.fr.example.com", "www.fr.example.com", "fr.www.example.com", "en-us.example.com", "localhost", "1.2.3.4", "forum-m.example.com",
                   "fr.foo.ck", "a.b.c.d.example.org", "\x00example.com", "\x00 example.com", " \x7f www.Example.com\x00 ", "\tm.example.com\x01"]
@@ -252,6 +259,7 @@ def run(ctx):
             if got != "facebook" or ref != "facebook":
                 ctx.viol("C07:readme-example:fingerprint_hostname", {"fn": "fingerprint_hostname", "host": "fr-FR.facebook.com", "strip_suffix": True}, {"helper": got, "url_level": ref, "readme": "facebook"})
             failpoints(ctx, m)
+            ALL_KW[0] = True
             for u in DIRECTED_URLS:
                 cl = []
                 if u[:1] < " " or u[:1] == "\x7f":
@@ -264,6 +272,7 @@ def run(ctx):
                     cl.append("lang-label+suffix")
                 check_url(ctx, m, u, rng, cl)
                 ctx.cls("directed-url")
+            ALL_KW[0] = False
             for h in DIRECTED_HOSTS:
                 check_host(ctx, m, h)
                 ctx.cls("directed-host")
